@@ -8,7 +8,7 @@
       and the final [Exit].
 
     The stages are those of [Driver.compile], re-composed here because [main.rs] interleaves them
-    with effects ([staged_compile]: the composition is [Driver.compile]).  The order of main.rs:
+    with effects ([Proofs/MainRun.v], [compile_unfold]: the composition is [Driver.compile]).  The order of main.rs:
     [--version]; missing usage path; the usage file is read; [Grammar::parse]; only THEN the
     "exactly one of --bash/--fish/--zsh/--pwsh" test; [from_grammar]; [Regex::from_valid_grammar];
     the three sorted warning loops; the [--regex] file; [DFA::from_regex_raw] (which compiles,
@@ -152,12 +152,10 @@ Section Run.
     | _ => Ok (COpaque sh v c)
     end.
 
-  (** from the regex on: warnings, [--regex], raw automaton, minimise, [--dfa], ambiguity check, script.
-      [wm] = which warnings are printed ([Diag.warning_messages] in [run]) *)
-  Definition after_regex (wm : valid_grammar -> list message) (a : cli_args) (upath text : string)
+  (** after the warnings: [--regex], raw automaton, minimise, [--dfa], ambiguity check, script *)
+  Definition after_warnings (a : cli_args) (upath text : string)
              (sh : shell) (path : string) (v : valid_grammar) (r : regex) (pl : pool) : rres trace :=
-    do ws <- render_all upath text (wm v);
-    let t1 := ws ++ opt_write (a_regex a) KRegexDot in
+    let t1 := opt_write (a_regex a) KRegexDot in
     match stage_raw pick fuel r pl with
     | Err e => do f <- fail_with upath text (v_command v) e; Ok (t1 ++ f)
     | Panic s => Panic s
@@ -179,6 +177,14 @@ Section Run.
             end
         end
     end.
+
+  (** from the regex on: the warnings, then the rest.
+      [wm] = which warnings are printed ([Diag.warning_messages] in [run]) *)
+  Definition after_regex (wm : valid_grammar -> list message) (a : cli_args) (upath text : string)
+             (sh : shell) (path : string) (v : valid_grammar) (r : regex) (pl : pool) : rres trace :=
+    do ws <- render_all upath text (wm v);
+    do rest <- after_warnings a upath text sh path v r pl;
+    Ok (ws ++ rest).
 
   Definition run_with (wm : valid_grammar -> list message) (a : cli_args) (input : option string) : rres trace :=
     if a_version a then Ok [Stdout version; Exit 0] else
